@@ -433,7 +433,13 @@ namespace xsimd
         template <size_t N, class A>
         XSIMD_INLINE batch<uint16_t, A> rotate_left(batch<uint16_t, A> const& self, requires_arch<avx512bw>) noexcept
         {
-            return _mm512_alignr_epi8(self, self, N);
+            // N counts 16-bit elements of the whole register; alignr_epi8 counts bytes inside each 128-bit lane:
+            // rotate the 128-bit lanes first, then stitch neighbouring lanes together
+            constexpr size_t bytes = (N * sizeof(uint16_t)) % 64;
+            constexpr int lanes = bytes / 16;
+            __m512i lo = _mm512_alignr_epi32(self, self, (lanes % 4) * 4);
+            __m512i hi = _mm512_alignr_epi32(self, self, ((lanes + 1) % 4) * 4);
+            return _mm512_alignr_epi8(hi, lo, bytes & 15);
         }
         template <size_t N, class A>
         XSIMD_INLINE batch<int16_t, A> rotate_left(batch<int16_t, A> const& self, requires_arch<avx512bw>) noexcept
